@@ -160,6 +160,12 @@ def _ch():
                 ns.solver_s += time.perf_counter() - t0
 
         z3.Solver.check = check
+        # CrossHair bypasses functools.lru_cache under the tracer, which would hide memoisation bugs in the code under
+        # test; keep caches effective and clear every cache that lives in a redress module at the start of each path
+        # (so no symbolic value leaks from one path into the next)
+        from functools import _lru_cache_wrapper
+        core._PATCH_REGISTRATIONS.pop(_lru_cache_wrapper.__call__, None)
+        ns.lru = _lru_cache_wrapper
         _CH = ns
     return _CH
 
@@ -321,6 +327,7 @@ def explore(harness, params, *, max_wall_s=600.0, per_path_s=30.0, fmode=False, 
                                   model_check_timeout=per_path_s / 2, search_root=root)
             status = None
             st["paths"] += 1
+            _clear_redress_caches(ch.lru)
             with tr.COMPOSITE_TRACER, tr.NoTracing(), ss.StateSpaceContext(space):
                 space.extra(ch.bl.ModelingDirector).global_representations[float] = float_repr
                 sym = Sym(space, fmode)
@@ -380,6 +387,14 @@ def explore(harness, params, *, max_wall_s=600.0, per_path_s=30.0, fmode=False, 
     return st
 
 
+def _clear_redress_caches(lru_type):
+    for name, mod in list(sys.modules.items()):
+        if mod is not None and (name == "redress" or name.startswith("redress.")):
+            for v in list(vars(mod).values()):
+                if isinstance(v, lru_type):
+                    v.cache_clear()
+
+
 def _jsonable(x):
     try:
         json.dumps(x)
@@ -395,6 +410,8 @@ def _jsonable(x):
 def replay(harness, params, values):
     """Run one recorded path under plain CPython.  Returns (verdict, sym)."""
     sym = ConcreteSym({k: dec(v) for k, v in values.items()})
+    from functools import _lru_cache_wrapper
+    _clear_redress_caches(_lru_cache_wrapper)
     try:
         verdict = harness(sym, params)
     except Violation as v:
